@@ -2,8 +2,8 @@ package rules
 
 import (
 	"fmt"
-	"sort"
 	"go/types"
+	"sort"
 	"strings"
 
 	"iocvet/internal/absint"
